@@ -556,7 +556,7 @@ class Exec(ExprMixin, AccessMixin, CallMixin, StmtMixin, SpecMixin, HeapMixin, O
     # object-specific patterns: only that object's slot may differ
     slots = {}
     for p in con.modifies_:
-      if p in ('list', 'dict', '*', '*user') or p.startswith('list(') or p.startswith('dict('):
+      if p in ('list', 'dict', '*', '*user') or p.startswith(('list(', 'dict(', 'owned(')):
         continue
       head, field = p.rsplit('.', 1)
       if (head, field) in self.ctx.registry.fields:
@@ -567,12 +567,17 @@ class Exec(ExprMixin, AccessMixin, CallMixin, StmtMixin, SpecMixin, HeapMixin, O
         slots.setdefault((fk[0], field), []).append(obj.t)
     whole = set()
     for p in con.modifies_:
-      if '.' in p and not p.startswith(('list(', 'dict(')):
+      if '.' in p and not p.startswith(('list(', 'dict(', 'owned(')):
         head, field = p.rsplit('.', 1)
         if (head, field) in self.ctx.registry.fields:
           whole.add((head, field))
+    containers = self.container_exempt(o, con.modifies_)
     for key in self.heap_changed_keys(old, st):
-      if key in whole or (key in allowed and key not in slots):
+      if key in whole:
+        continue
+      if key in allowed and key not in slots:
+        if key[0] in ('list', 'dict') and containers is not None:
+          self.container_frame_obligation(old, st, key, containers, ALLOC_BASE, '%s/frame.%s.%s' % (self.ctx.unit, key[0], key[1]), '')
         continue
       oldarr = old.heap.get(key)
       if oldarr is None:
@@ -583,3 +588,47 @@ class Exec(ExprMixin, AccessMixin, CallMixin, StmtMixin, SpecMixin, HeapMixin, O
                                        z3.Select(st.heap[key], r) == z3.Select(oldarr, r)))
       self.ctx.obligations.append(Obligation('%s/frame.%s.%s' % (self.ctx.unit, key[0], key[1]), 'frame', st.pc, goal,
                                              '', {'msg': 'writes outside the modifies clause'}))
+
+  def owned_tag(self, pattern):
+    """'owned(Class.field)' -> ownership tag of the containers stored in that slot (see State.harr)."""
+    import zlib
+    return zlib.crc32(pattern[6:-1].encode()) % 1000003 + 1
+
+  def container_exempt(self, o, patterns, env=None):
+    """Which pre-existing containers a modifies list lets a function change: (refs, predicates) evaluated in the
+    pre-state o, or None when the list names a whole container class ('list', 'dict', '*')."""
+    refs, preds = [], []
+    ctag = z3.Function('container_tag', z3.IntSort(), z3.IntSort())
+    kown = z3.Function('keylist_owner', z3.IntSort(), z3.IntSort())
+    for p in patterns:
+      if p in ('*', '*user', 'list', 'dict'):
+        return None
+      if p.startswith('owned('):
+        tag = self.owned_tag(p)
+        preds.append(lambda r, tag=tag: z3.Or(ctag(r) == tag, z3.And(ctag(r) == -1, ctag(kown(r)) == tag)))
+        continue
+      if p.startswith('list(') or p.startswith('dict('):
+        if self.mentions_unset_ghost(o, p):
+          continue
+        ref = self.eval_spec_value(o.fork(), p[5:-1], env)
+        refs.append(ref.t)
+        if p.startswith('dict('):
+          refs.append(self.dict_keys(o.fork(), ref).t)
+        continue
+      if '.' in p and not p.startswith('owned('):
+        head, field = p.rsplit('.', 1)
+        kind = self.ctx.registry.fields.get((head, field))
+        if kind is not None and kind.tag in ('list', 'dict', 'set', 'tuple') and not getattr(kind, 'owned', False):
+          return None          # a whole slot of (shared) containers may be re-pointed: stay coarse
+    return refs, preds
+
+  def container_frame_obligation(self, old, st, key, containers, bound, name, where):
+    refs, preds = containers
+    oldarr = old.heap.get(key)
+    if oldarr is None:
+      oldarr = z3.Const('H0_%s_%s' % key, st.heap[key].sort())
+    r = fresh('fr', z3.IntSort())
+    cond = [r < bound, r != 0] + [r != t for t in refs] + [z3.Not(pr(r)) for pr in preds]
+    goal = z3.ForAll([r], z3.Implies(z3.And(*cond), z3.Select(st.heap[key], r) == z3.Select(oldarr, r)))
+    self.ctx.obligations.append(Obligation(name, 'frame', st.pc, goal, where,
+                                           {'msg': 'a container outside the modifies clause is written'}))
